@@ -153,4 +153,16 @@ PROPS = {
         "rule": "bld per op sequence (all 2^10 flag states from empty and full words, presence/absence grids, all sequences up to length 3/4 over a 10-op alphabet, random sequences up to 13 ops); loopback connections are oracle-only evaluations; distinct = distinct op text",
         "assumptions": ["for UDP without a local address the documented default of the UDP port is 0 (the socket is bound to an ephemeral port and LFS replies to the datagram's source)"],
     },
+    "C08": {
+        "level_text": "Lean theorems on the model of the UDP adaptors (receive into a full-size scratch array, serve reads from the adaptor's own buffer): for every datagram list with sizes up to 1020 and EVERY sequence of offered slice sizes, the chunks served, the buffered remainder and the datagrams still to arrive are exactly the original bytes in order (nothing dropped, duplicated or reordered); every read with a positive offer makes progress; composed with the C05 refinement: once all datagrams are served the connection's results are exactly one per frame, for any number of packets per datagram and any cumulative traffic; each write is one send of exactly the frame. Tied at adaptor level by correspondence over real loopback socket pairs with harness-chosen slice sizes, and at connection level by an oracle over real loopback sessions (every kind, several packets per datagram, sessions far beyond the 6120-byte buffer, replies observed at the peer).",
+        "level_note": "Trusted: Lean kernel; the harness. The operating system's UDP stack is modelled (datagram boundaries preserved, a datagram longer than the receive array truncated) and observed over loopback only; loss and reordering on a real network are outside the model. The connection buffer's spare-capacity dynamics need no model: the theorem quantifies over every offered size.",
+        "technique": "Lean 4 proof (stream-conservation invariant by induction over the reads, composed with the read-loop refinement) + differential correspondence and oracle over loopback UDP sockets",
+        "trusted": [
+            "hand-modelled, tied by the correspondence run only: both UdpStream adaptors (read path) and their one-send-per-write path",
+            "modelled not verified: the operating system's datagram semantics; tokio's UdpSocket::poll_recv / std's UdpSocket::recv",
+        ],
+        "rule": "udp.adaptor lines: datagram list x offered sizes (harness-chosen, lock-step sends) for both adaptors; udp.session / udp.write are oracle-only evaluations over real Framed connections; distinct = distinct op text",
+        "assumptions": ["datagrams are at most 1020 bytes (larger ones are truncated by recv, as the specification's maximum packet size implies)", "no datagram is empty"],
+        "timeout": {"quick": 900, "thorough": 7200},
+    },
 }
